@@ -161,7 +161,7 @@ package engine
 // ---- elision (C04) ---------------------------------------------------------------------------------
 
 //@ func sectionRegion(items, r, start, end) (r1)
-//@   requires 0 <= start && start <= len(items) && 0 <= end && end <= len(items)
+//@   requires 0 <= start && start <= len(items) && 0 <= end
 //@   requires typing: forall i int {items[i]} :: 0 <= i && i < len(items) ==> implements(rvIface(items[i]), "go/ast.Node")
 //@   ensures r1 == secRegion(items, r, start, end)
 //@   unfold-post secRegion(items, r, start, end) == r1
@@ -183,6 +183,7 @@ package engine
 //@   ensures [C04] ok == pfxOK(want, got, dmap(d), r, idx)
 //@   ensures [C04] ok ==> newIdx == idx + len(want) && dmap(d1) == thrAt(want, got, dmap(d), r, idx, len(want))
 //@   ensures [C04] !ok ==> newIdx == idx
+//@   ensures idx <= newIdx && newIdx <= len(got)
 //@   ensures [C04] len(want) == 0 ==> dmap(d1) == dmap(d)
 //@   ensures [C02] ok ==> keepsBindings(dmap(d), dmap(d1))
 //@   ensures d1 != nil
@@ -206,8 +207,11 @@ package engine
 //@   ensures [C04] shortest-run-first: len(want) > 0 && ok ==> idx <= newIdx - len(want) && newIdx - len(want) < len(got) && secOKAt(dots, want, got, dmap(d), r, idx, newIdx - len(want)) && forall i int {secOKAt(dots, want, got, dmap(d), r, idx, i)} :: idx <= i && i < newIdx - len(want) ==> !secOKAt(dots, want, got, dmap(d), r, idx, i)
 //@   ensures [C02,C04] data-from-the-successful-attempt-only: len(want) > 0 && ok ==> dmap(d1) == secDAt(dots, want, got, dmap(d), r, idx, newIdx - len(want))
 //@   ensures [C04] !ok ==> newIdx == idx
+//@   ensures idx <= newIdx && newIdx <= len(got)
 //@   ensures [C02] ok ==> keepsBindings(dmap(d), dmap(d1))
 //@   ensures d1 != nil
+//@   unfold-post fsIdx(dots, want, got, dmap(d), r, idx) == newIdx && fsOK(dots, want, got, dmap(d), r, idx) == ok && (ok ==> fsD(dots, want, got, dmap(d), r, idx) == dmap(d1))
+//@   ensures newIdx == fsIdx(dots, want, got, dmap(d), r, idx) && ok == fsOK(dots, want, got, dmap(d), r, idx) && (ok ==> dmap(d1) == fsD(dots, want, got, dmap(d), r, idx))
 //@   assigns nothing
 //@   loop 0
 //@     unfold secOKAt(dots, want, got, dmap(d), r, idx, i) == pfxOK(want, got, dotsPushed(dmap(d), dots, got[idx:i], secRegion(got, r, idx, i)), secRegion(got, r, idx, i), i)
@@ -215,3 +219,27 @@ package engine
 //@     invariant idx <= i
 //@     invariant forall q int {secOKAt(dots, want, got, dmap(d), r, idx, q)} :: idx <= q && q < i ==> !secOKAt(dots, want, got, dmap(d), r, idx, q)
 //@     decreases len(got) - i
+
+// A list pattern with elisions: the first section is anchored at the start, every later section is
+// searched left to right (shortest run for the elision before it), and the list must be consumed.
+//@ func (m SliceDotsMatcher) Match(got, d, r) (d1, ok)
+//@   requires typing: len(m.Sections) > 0 && len(m.Dots) == len(m.Sections) - 1
+//@   requires typing: forall s int {m.Sections[s]} :: 0 <= s && s < len(m.Sections) ==> forall j int {m.Sections[s][j]} :: 0 <= j && j < len(m.Sections[s]) ==> m.Sections[s][j] != nil
+//@   requires typing: forall s int {m.Sections[1:][s]} :: 0 <= s && s < len(m.Sections) - 1 ==> forall j int {m.Sections[1:][s][j]} :: 0 <= j && j < len(m.Sections[1:][s]) ==> m.Sections[1:][s][j] != nil
+//@   requires typing: forall i int {idx(got, i)} :: 0 <= i && i < rlen(got) ==> implements(rvIface(idx(got, i)), "go/ast.Node")
+//@   loop 0
+//@     invariant 0 <= i && i <= rlen(got) && len(gotItems) == rlen(got)
+//@     invariant forall q int {gotItems[q]} :: 0 <= q && q < i ==> gotItems[q] == idx(got, q)
+//@     decreases rlen(got) - i
+//@   loop 1
+//@     unfold MatchOK(boxed(m), got, dmap(d0), r) == (pfxOK(m.Sections[0], gotItems, dmap(d0), secRegion(gotItems, r, 0, len(m.Sections[0])), 0) && (forall j int {m.Dots[j]} :: 0 <= j && j < len(m.Sections) - 1 ==> fsOK(m.Dots[j], m.Sections[1:][j], gotItems, sdD(m.Sections[1:], m.Dots, gotItems, r, j), r, sdIdx(m.Sections[1:], m.Dots, gotItems, r, j))) && sdIdx(m.Sections[1:], m.Dots, gotItems, r, len(m.Sections) - 1) == len(gotItems))
+//@     unfold MatchD(boxed(m), got, dmap(d0), r) == sdD(m.Sections[1:], m.Dots, gotItems, r, len(m.Sections) - 1)
+//@     unfold sdIdx(m.Sections[1:], m.Dots, gotItems, r, 0) == len(m.Sections[0]) && sdD(m.Sections[1:], m.Dots, gotItems, r, 0) == thrAt(m.Sections[0], gotItems, dmap(d0), secRegion(gotItems, r, 0, len(m.Sections[0])), 0, len(m.Sections[0]))
+//@     unfold sdIdx(m.Sections[1:], m.Dots, gotItems, r, #k + 1) == fsIdx(m.Dots[#k], m.Sections[1:][#k], gotItems, sdD(m.Sections[1:], m.Dots, gotItems, r, #k), r, sdIdx(m.Sections[1:], m.Dots, gotItems, r, #k))
+//@     unfold sdD(m.Sections[1:], m.Dots, gotItems, r, #k + 1) == fsD(m.Dots[#k], m.Sections[1:][#k], gotItems, sdD(m.Sections[1:], m.Dots, gotItems, r, #k), r, sdIdx(m.Sections[1:], m.Dots, gotItems, r, #k))
+//@     invariant d != nil && 0 <= idx && idx <= len(gotItems)
+//@     invariant pfxOK(m.Sections[0], gotItems, dmap(d0), secRegion(gotItems, r, 0, len(m.Sections[0])), 0)
+//@     invariant idx == sdIdx(m.Sections[1:], m.Dots, gotItems, r, #k)
+//@     invariant dmap(d) == sdD(m.Sections[1:], m.Dots, gotItems, r, #k)
+//@     invariant forall j int {m.Dots[j]} :: 0 <= j && j < #k ==> fsOK(m.Dots[j], m.Sections[1:][j], gotItems, sdD(m.Sections[1:], m.Dots, gotItems, r, j), r, sdIdx(m.Sections[1:], m.Dots, gotItems, r, j))
+//@     invariant keepsBindings(dmap(d0), dmap(d))
